@@ -16,7 +16,7 @@ import thermosteam as tmo
 from hypothesis import strategies as st
 from thermosteam import indexer as tix
 from thermosteam.base import SparseVector
-from thermosteam.exceptions import UndefinedChemicalAlias
+from thermosteam.exceptions import UndefinedChemicalAlias, UndefinedPhase
 from vlib.runner import HarnessError
 
 PROPERTY = 'C10'
@@ -57,7 +57,9 @@ REQUIRED_CELLS = {'quick': ['key:ix=S', 'key:ix=M', 'key:pk=sum', 'key:pk=phase'
                             'hist:op=casread', 'hist:new=same', 'hist:new=copy', 'hist:new=phases', 'hist:new=twin',
                             'hist:op=set_alias', 'hist:op=define_group', 'hist:write-group', 'hist:mirror=twin',
                             'hist:mirror=phases', 'hist:probe=recv', 'hist:probe=send', 'hist:probe=recv3',
-                            'hist:probe=send3', 'hist:xcopy-order=different', 'hist:xcopy-sender-has-extra', 'shared:to=twin', 'shared:to=same', 'shared:to=other'],
+                            'hist:probe=send3', 'hist:xcopy-order=different', 'hist:xcopy-sender-has-extra', 'hist:xcopy-grows=same-pkg',
+                            'hist:xcopy-grows=other-pkg', 'hist:api=1', 'hist:api=2', 'key:api=0', 'key:get_data,api=2',
+                            'key:set_data,api=2', 'group:array-reused', 'shared:to=twin', 'shared:to=same', 'shared:to=other'],
                   'thorough': []}
 WALL = {'quick': 540, 'thorough': 3300}
 
@@ -210,13 +212,31 @@ def add_group(ch, ctx, U, label):
         vals = ch.draw(f'{label}.comp', st.lists(COMPVAL, min_size=len(mem), max_size=len(mem)))
         if not any(vals): vals[0] = 1.0
         c = np.array(vals, float)
-        comp = np.array(vals, float) if ch.bool(f'{label}.comp.array') else list(vals)
+        if ch.bool(f'{label}.comp.array'):
+            old = getattr(U, 'caller_arrays', {}).get(len(vals))
+            if old is not None and ch.bool(f'{label}.comp.reuse'):
+                comp = old; comp[:] = vals          # the caller recycles the array it passed for an earlier group
+                ctx.cell('group:array-reused')
+            else:
+                comp = np.array(vals, float)
+        else:
+            comp = list(vals)
     if ch.bool(f'{label}.ids.tuple'): ids = tuple(ids)
     kw = {}
     if mode == 'wt': kw['wt'] = True
     if comp is None and ch.bool(f'{label}.explicit_none'): kw['composition'] = None
     if comp is not None: kw['composition'] = comp
     ctx.call('define_group', U.chems.define_group, name, ids, region=f'mode={mode}', **kw)
+    if isinstance(comp, np.ndarray):
+        if not np.array_equal(comp, c):
+            ctx.fail(f'define_group|mode={mode},comp=array|argument-modified',
+                     f'composition array passed as {c.tolist()} is {comp.tolist()} after define_group')
+        # the caller goes on using its array; the group must keep the composition given at definition time
+        comp[:] = 7.0 * np.arange(1, len(comp) + 1)
+        if not hasattr(U, 'caller_arrays'): U.caller_arrays = {}
+        U.caller_arrays[len(comp)] = comp
+    elif isinstance(comp, list) and comp != list(c):
+        ctx.fail(f'define_group|mode={mode},comp=list|argument-modified', f'composition list changed to {comp}')
     MW = U.MW[mem]
     if mode == 'wt':
         wtc = c / c.sum(); m = c / MW; molc = m / m.sum()
@@ -503,12 +523,41 @@ def draw_single_or_mkey(ch, label, S, write, allow_pall=True, pforms=None):
     return draw_mkey(ch, label, S.U, S.phases, write, allow_pall, pforms)
 
 
-def do_read(ctx, S, fl, mk, ev='', site='read'):
-    region = key_region(S, fl, mk, ev=ev)
+# own conversion factors (requested unit per base unit kmol/hr resp. kg/hr)
+UNITS = {'mol': {'kmol/hr': 1.0, 'mol/hr': 1000.0, 'mol/s': 1000.0 / 3600.0, 'kmol/s': 1.0 / 3600.0,
+                 'lbmol/hr': 1.0 / 0.45359237},
+         'mass': {'kg/hr': 1.0, 'g/hr': 1000.0, 'kg/s': 1.0 / 3600.0, 'tonne/day': 24.0 / 1000.0,
+                  'lb/hr': 1.0 / 0.45359237}}
+
+
+def draw_api(ch, label, fl, key):
+    """None = indexer[key]; otherwise (units, factor, components) for get_data/set_data(units, *components)."""
+    if ch.choice(f'{label}.api', ['item', 'item', 'data']) == 'item': return None
+    units = ch.choice(f'{label}.units', list(UNITS[fl]))
+    comps = (key,)
+    if isinstance(key, (tuple, list)) and len(key) >= 2 and \
+            ch.choice(f'{label}.comps', ['one', 'several', 'several']) == 'several':
+        comps = tuple(key)
+    return units, UNITS[fl][units], comps
+
+
+def api_tag(api):
+    return '' if api is None else f',api={min(len(api[2]), 2)}'
+
+
+def do_read(ctx, S, fl, mk, ev='', site='read', api=None):
+    region = key_region(S, fl, mk, ev=api_tag(api) + ev)
     key = mk_py(mk)
-    got = ctx.call(site, S.ix(fl).__getitem__, key, region=region)
     want = model_read(S.U, S.view(fl), mk)
-    g = compare(ctx, got, want, f'{site}|{region}', f'read {key!r}', S.scale(fl))
+    scale = S.scale(fl)
+    if api is None:
+        got = ctx.call(site, S.ix(fl).__getitem__, key, region=region)
+    else:
+        units, factor, comps = api
+        got = ctx.call(site, S.ix(fl).get_data, units, *comps, region=region)
+        want = np.asarray(want, float) * factor
+        scale *= factor
+    g = compare(ctx, got, want, f'{site}|{region}', f'read {key!r}' + (f' in {api[0]}' if api else ''), scale)
     return g
 
 
@@ -587,19 +636,26 @@ def draw_write(ch, label, S, fl, mk, hist=False, ctx=None):
     return data, '2d', out
 
 
-def do_write(ch, ctx, label, S, fl, mk, ev='', hist=False):
+def do_write(ch, ctx, label, S, fl, mk, ev='', hist=False, api=None):
     data, dtag, assign = draw_write(ch, label, S, fl, mk, hist, ctx)
-    region = key_region(S, fl, mk, data=dtag, ev=ev)
+    if dtag == 'sparse': api = None
+    region = key_region(S, fl, mk, data=dtag, ev=api_tag(api) + ev)
     key = mk_py(mk)
     ix = S.ix(fl)
+    if api is None:
+        setter = lambda: ix.__setitem__(key, data)
+    else:
+        units, factor, comps = api
+        shown = data * factor if dtag == 'scalar' else np.asarray(data, float) * factor   # the same flows in `units`
+        setter = lambda: ix.set_data(shown, units, *comps)
     if assign is None:
         try:
-            ctx.call('write', ix.__setitem__, key, data, allowed=(IndexError,), region=region)
+            ctx.call('write', setter, allowed=(IndexError,), region=region)
         except IndexError:
             check_data(ctx, S, fl, f'write|{region}', f'refused write {key!r} changed the data')
             return region, dtag
         ctx.fail(f'write|{region}|accepted', f'write {key!r} without a phase on multi-phase data was accepted')
-    ctx.call('write', ix.__setitem__, key, data, region=region)
+    ctx.call('write', setter, region=region)
     for r, pos, value in assign:
         S.set_view(fl, r, pos, value)
     S.version += 1
@@ -625,16 +681,36 @@ def prop_key(ch, ctx):
     if not trivial:
         ctx.nontriv(['key', S.kind, list(S.phases), fl, mk[0], ck_shape(mk[3]), write,
                      [[1 if v else 0 for v in r] for r in S.model.tolist()]])
+    rapi = draw_api(ch, 'r', fl, mk_py(mk))
+    if rapi: ctx.cell(f'key:get_data{api_tag(rapi)}')
     if not write or ch.bool('read_first'):
-        do_read(ctx, S, fl, mk)
+        do_read(ctx, S, fl, mk, api=rapi)
         check_data(ctx, S, fl, f'read|{key_region(S, fl, mk)}', 'data changed by a read')
     if write:
-        region, dtag = do_write(ch, ctx, 'w', S, fl, mk)
+        wapi = draw_api(ch, 'w', fl, mk_py(mk))
+        if wapi: ctx.cell(f'key:set_data{api_tag(wapi)}')
+        region, dtag = do_write(ch, ctx, 'w', S, fl, mk, api=wapi)
         ctx.cell(f'key:data={dtag}')
         if mk[0] != 'sum':
-            do_read(ctx, S, fl, mk, site='readback')
+            do_read(ctx, S, fl, mk, site='readback', api=rapi)
         whole = ('single', None, None, ('all',)) if S.kind == 'S' else ('sum', None, None, ('all',))
         do_read(ctx, S, fl, whole, site='readback')
+    # no index component at all: the whole data in the requested units
+    if ch.bool('whole_api'):
+        units = ch.choice('whole.units', list(UNITS[fl]))
+        factor = UNITS[fl][units]
+        region = f'ix={S.kind},fl={fl},api=0'
+        ix = S.ix(fl)
+        if ch.bool('whole.write'):
+            v = ch.draw('whole.value', VAL)
+            ctx.call('write', ix.set_data, wrap_scalar(ch, 'whole', v) * factor, units, region=region)
+            for r in range(len(S.phases)):
+                for pos in range(U.n): S.set_view(fl, r, pos, v)
+            check_data(ctx, S, fl, f'write|{region}', f'after set_data({v * factor!r}, {units!r})')
+        got = ctx.call('read', ix.get_data, units, region=region)
+        F = S.view(fl) * factor
+        compare(ctx, got, F if S.kind == 'M' else F[0], f'read|{region}', f'get_data({units!r})', S.scale(fl) * factor)
+        ctx.cell('key:api=0')
 
 
 # ---------------------------------------------------------------------------
@@ -763,13 +839,25 @@ def op_bulk(ch, ctx, W, label, big):
     return [form, n > 100, n > 500]
 
 
-def draw_other(ch, ctx, label, W, S):
-    """A sender on another package: the receiver's chemicals (a subset, in another order, maybe other IDs) plus
-    up to two chemicals the receiver does not know (always with zero flow, so the operation stays admissible)."""
+def draw_other(ch, ctx, label, W, S, method):
+    """A single-phase sender: on the receiver's own package, or on another package holding the receiver's
+    chemicals (a subset, in another order, maybe other IDs) plus up to two chemicals the receiver does not know
+    (always with zero flow, so the operation stays admissible).  For copy_like/mix_from onto multi-phase data the
+    sender's phase may be one the receiver lacks (the receiver then grows that phase)."""
     U = S.U
+    if S.kind == 'M':
+        known = [p for p in ALL_PHASES if p in S.phases or p.swapcase() in S.phases]
+        cands = list(S.phases) + [p for p in known if p not in S.phases]
+        if method != 'separate_out': cands += [p for p in ALL_PHASES if p not in known]
+    else:
+        cands = ALL_PHASES
+    if ch.bool(f'{label}.samepkg'):
+        phase = ch.choice(f'{label}.phase', cands)
+        flows = ch.draw(f'{label}.flow', st.lists(VAL, min_size=U.n, max_size=U.n))
+        return U, Str(U, 'S', [phase], [flows]), phase, list(flows)
     sub = ch.subset(f'{label}.chems', U.members, 1, U.n)
     style = ch.choice(f'{label}.idstyle', ['db', 'prefixed', 'spaced'])
-    phase = ch.choice(f'{label}.phase', list(S.phases) if S.kind == 'M' else ALL_PHASES)
+    phase = ch.choice(f'{label}.phase', cands)
     flows = ch.draw(f'{label}.flow', st.lists(VAL, min_size=len(sub), max_size=len(sub)))
     members = list(sub); flows = list(flows)
     room = min(2, 8 - len(members))
@@ -780,6 +868,14 @@ def draw_other(ch, ctx, label, W, S):
     O = base_universe(ctx, label, members, style)
     T = Str(O, 'S', [phase], [flows])
     return O, T, phase, flows
+
+
+def expect_undefined_phase(ctx, X, key, region):
+    try:
+        ctx.call('read', X.stream.imol.__getitem__, key, allowed=(UndefinedPhase, UndefinedChemicalAlias), region=region)
+    except (UndefinedPhase, UndefinedChemicalAlias):
+        return
+    ctx.fail(f'read|{region}|accepted', f'{key!r} answered on phases {X.phases}')
 
 
 def cas_key(X, cas, container):
@@ -820,9 +916,19 @@ def op_xcopy(ch, ctx, W, label):
     si = ch.int(f'{label}.stream', 0, len(W.streams) - 1)
     S = W.streams[si]
     U = S.U
-    O, T, phase, flows = draw_other(ch, ctx, label, W, S)
-    W.others.append(O)
     method = ch.choice(f'{label}.method', ['copy_like', 'copy_like', 'separate_out', 'mix_from'])
+    O, T, phase, flows = draw_other(ch, ctx, label, W, S, method)
+    same_pkg = O is U
+    if not same_pkg: W.others.append(O)
+    grows = S.kind == 'M' and phase not in S.phases and phase.swapcase() not in S.phases
+    old_phases = S.phases
+    if grows:
+        # lookups with a phase part right before the receiver grows a phase: they fill the (old phases, package) cache
+        for r, p in enumerate(old_phases):
+            for mk in (('phase', p, r, None), ('pk', p, r, ('name', 0, U.ids[0])), ('pk', p, r, ('seq', 'tuple', [('name', U.n - 1, U.cas[-1])]))):
+                W.note(S, mk, ctx)
+                g = do_read(ctx, S, 'mol', mk, ev=',before=grow' + W.evtag(S, mk))
+                remember(W, si, 'mol', mk, g, limit=80)
     # the CAS numbers of the sender's non-zero entries in stored (= ascending) order
     cas = tuple(O.cas[j] for j, v in enumerate(flows) if v)
     pre = ch.choice(f'{label}.preread', ['no', 'tuple', 'list', 'recv-tuple'])
@@ -842,7 +948,20 @@ def op_xcopy(ch, ctx, W, label):
         ctx.call('xcopy', recv.mix_from, [T.stream.imol], region=region)
     else:
         ctx.call('xcopy', getattr(recv, method), T.stream.imol, region=region)
-    r = S.phases.index(phase) if S.kind == 'M' else 0
+    if grows:
+        # the receiver now has the union of the phases, rows in sorted order, the new row empty
+        new_phases = tuple(sorted(set(old_phases) | {phase}))
+        model = np.zeros((len(new_phases), U.n))
+        for r0, p in enumerate(old_phases): model[new_phases.index(p)] = S.model[r0]
+        S.model = model; S.phases = new_phases
+        got = tuple(S.stream.imol.phases)
+        if got != new_phases:
+            ctx.fail(f'xcopy|{region}|phases', f'phases {got} after receiving phase {phase!r} on {old_phases}')
+        ctx.cell('hist:xcopy-grows-phase'); ctx.cell('hist:xcopy-grows=' + ('same-pkg' if same_pkg else 'other-pkg'))
+    if S.kind == 'M':
+        r = S.phases.index(phase) if phase in S.phases else S.phases.index(phase.swapcase())
+    else:
+        r = 0
     pos_of = {c: i for i, c in enumerate(U.cas)}
     if method in ('copy_like', 'mix_from'):
         S.model[:] = 0.0
@@ -855,7 +974,27 @@ def op_xcopy(ch, ctx, W, label):
     check_data(ctx, S, 'mol', f'xcopy|{region}', f'after {method} from a stream of another package')
     check_data(ctx, T, 'mol', f'xcopy|{region},sender', f'sender changed by {method}')
     hows = []
-    if cas:
+    if grows:
+        # every earlier key of the grown stream again, and a fresh stream on the old phases: earlier keys answer
+        # from its (empty) data and the new phase is unknown there
+        for k, m in enumerate(W.memo):
+            if m[0] == si: reread(ctx, W, k, 'grown')
+        F = Str(U, 'M', list(old_phases), [[0.0] * U.n for _ in old_phases])
+        fi = len(W.streams)
+        W.streams.append(F)
+        for k, m in enumerate(list(W.memo)):
+            if m[0] == si and m[1] == 'mol':
+                mk2 = translate(m[2], F)
+                if mk2 is not None:
+                    W.note(F, mk2, ctx)
+                    do_read(ctx, F, 'mol', mk2, ev=',fresh=old-phases' + W.evtag(F, mk2), site='reread')
+        expect_undefined_phase(ctx, F, phase, 'fresh=old-phases,key=phase')
+        expect_undefined_phase(ctx, F, (phase, U.ids[0]), 'fresh=old-phases,key=pk')
+        expect_undefined_phase(ctx, F, (phase, (U.cas[-1],)), 'fresh=old-phases,key=pk')
+        if len(W.streams) > 7: W.streams.pop()
+    if cas and same_pkg:
+        hows.append(probe(ch, ctx, W, f'{label}.recv', S, cas, 'recv'))
+    elif cas:
         for X in (S, T):
             W.last_cas[id(X.U)] = cas
             W.xcas.setdefault(id(X.U), set()).add(cas)
@@ -875,9 +1014,10 @@ def op_xcopy(ch, ctx, W, label):
     if len(W.streams) < 6:
         W.streams.append(T)     # the sender lives on: later steps read, write, bulk-read and audit it too
     same_order = [c for c in U.cas if c in O.cas] == [c for c in O.cas if c in U.cas]
-    ctx.cell('hist:xcopy-order=' + ('same' if same_order else 'different'))
-    if len(O.members) > len([m for m in O.members if m in U.members]): ctx.cell('hist:xcopy-sender-has-extra')
-    return [S.kind, method, len(cas), pre, hows, same_order]
+    if not same_pkg:
+        ctx.cell('hist:xcopy-order=' + ('same' if same_order else 'different'))
+        if len(O.members) > len([m for m in O.members if m in U.members]): ctx.cell('hist:xcopy-sender-has-extra')
+    return [S.kind, method, len(cas), pre, hows, same_order, same_pkg, grows]
 
 
 def op_casread(ch, ctx, W, label):
@@ -1046,12 +1186,14 @@ def prop_history(ch, ctx):
             mk = draw_single_or_mkey(ch, label, S, op == 'write', allow_pall=False, pforms=pforms)
             W.note(S, mk, ctx)
             ev = W.evtag(S, mk)
+            api = draw_api(ch, label, fl, mk_py(mk))
+            if api: ctx.cell(f'hist:api{api_tag(api)}')
             if op == 'read':
-                g = do_read(ctx, S, fl, mk, ev=ev)
-                remember(W, si, fl, mk, g)
+                g = do_read(ctx, S, fl, mk, ev=ev, api=api)
+                if api is None: remember(W, si, fl, mk, g)
                 summary.append(['read', S.kind, fl, mk[0], ck_shape(mk[3]), ev])
             else:
-                region, dtag = do_write(ch, ctx, label, S, fl, mk, ev=ev, hist=True)
+                region, dtag = do_write(ch, ctx, label, S, fl, mk, ev=ev, hist=True, api=api)
                 if ck_kind(mk[3]) in ('group', 'nested') and mk[0] != 'sum':
                     flags.add('write-group'); ctx.cell('hist:write-group')
                 summary.append(['write', S.kind, fl, mk[0], ck_shape(mk[3]), dtag, ev])
@@ -1146,6 +1288,7 @@ def op_mirror(ch, ctx, W, label):
 def reread(ctx, W, k, when):
     si, fl, mk, first, version = W.memo[k]
     S = W.streams[si]
+    mk = translate(mk, S)       # same key; the row of its phase is looked up again (the stream may have grown a phase)
     ev = W.evtag(S, mk)
     g = do_read(ctx, S, fl, mk, ev=ev, site='reread')
     if S.version == version and not (g.shape == first.shape and np.array_equal(g, first)):
